@@ -103,6 +103,10 @@ def jobs(tier):
     for op in ("map", "filter", "filterfalse", "takewhile", "dropwhile", "starmap", "accumulate_f", "iter_sentinel"):
         add(op, 1, 2, 4, ffl="defaw", fl="acls")
     add("merge", 2, 1, 4, ffl="defaw", b1=True)
+    for op in ("filter", "filterfalse", "takewhile", "dropwhile", "map"):
+        add(op, 1, 2, 4, ffl="fobj")
+    add("zip_longest_shared", 1, 3, 4)
+    add("zip_longest_shared3", 1, 4, 4)
     # groupby (its group handling is C16's subject): the parent iterator pulls and calls the key like the stdlib's
     add("groupby_keys", 1, 3, 5)
     add("groupby_keys", 1, 3, 5, pool=True)
